@@ -260,7 +260,8 @@ def header_reader(repo: Repo, chk: Check) -> None:
         n7 = Lin.atom(("bitand", lenval, Lin(0x7F)))
         tl = res.fields.get("tag_length") if hasattr(res, "fields") else None
         want_tl = T + 1 + (n7 if long_form else 0)
-        chk.ob("O2", site, tl == want_tl, "header length = identifier octets + 1" + (" + (length octet & 0x7F)" if long_form else "") if tl == want_tl else f"tag_length is {tl!r}, expected {want_tl!r}")
+        oktl = tl == want_tl or (isinstance(tl, Lin) and same_on_byte(tl - want_tl, Lin(0), ("read", lens[0].rid)))
+        chk.ob("O2", site, oktl, "header length = identifier octets + 1" + (" + (length octet & 0x7F)" if long_form else "") if oktl else f"tag_length is {tl!r}, expected {want_tl!r}")
         if long_form:
             reps = [r for r in p.reads if r.kind == "repeat"]
             okr = False
